@@ -1,4 +1,5 @@
 import TrucModel.Model.TypeName
+import TrucModel.Model.Layout
 /-
   `StaticTypeResolver` (`record/type_resolver.rs`): an ordered table keyed by the normalised type
   name; registration refuses duplicates (panic); dynamic lookups normalise the requested name first.
@@ -26,5 +27,40 @@ def lookup (t : Table) (requested : String) : Option Entry :=
 
 /-- `type_info::<T>()` with `key` = `truc_type_name::<T>()` -/
 def lookupKey (t : Table) (key : String) : Option Entry := t.lookup key
+
+
+/-! ### the entry points of `NativeRecordDefinitionBuilder` that attach type information
+    (`builder/native/mod.rs:57-174`): what they hand to the generic builder's `add_datum` -/
+
+/-- `DatumDefinitionOverride` -/
+structure Override where
+  typeName : Option String := none
+  size     : Option Nat := none
+  align    : Option Nat := none
+  uninit   : Option Bool := none
+deriving Repr, DecidableEq, Inhabited
+
+inductive EntryPoint where
+  /-- `add_datum::<T>` with `key` = `truc_type_name::<T>()` -/
+  | typed (key : String)
+  /-- `add_datum_allow_uninit::<T>` -/
+  | typedUninit (key : String)
+  /-- `add_datum_override::<T>` -/
+  | override (key : String) (o : Override)
+  /-- `add_dynamic_datum` -/
+  | dynamic (spelling : String)
+  /-- `copy_datum` (of a datum of any definition) -/
+  | copy (src : Truc.Info)
+deriving Repr, Inhabited
+
+/-- the description handed to `add_datum`; `none` = the resolver panics ("Could not resolve type …").
+    Nothing but the table's answer and the explicit override is consulted. -/
+def entryInfo (t : Table) (name : String) : EntryPoint → Option Truc.Info
+  | .typed k => (lookupKey t k).map fun e => ⟨name, e.name, e.size, e.align, Truc.UNSET, false⟩
+  | .typedUninit k => (lookupKey t k).map fun e => ⟨name, e.name, e.size, e.align, Truc.UNSET, true⟩
+  | .override k o => (lookupKey t k).map fun e =>
+      ⟨name, o.typeName.getD e.name, o.size.getD e.size, o.align.getD e.align, Truc.UNSET, o.uninit.getD false⟩
+  | .dynamic s => (lookup t s).map fun e => ⟨name, e.name, e.size, e.align, Truc.UNSET, e.uninit⟩
+  | .copy src => some ⟨src.name, src.ty, src.size, src.align, Truc.UNSET, src.uninit⟩
 
 end Truc.Res
